@@ -275,6 +275,139 @@ def k_line_pre(tw: int, rest: int, lead: int, second: int):
             and 0 <= second <= 2)
 
 
+# ---- the size field with Python's real number grammar ----------------------------------------
+_real_int = int
+SIGNS = '+-_'
+
+
+def _ascii_digits(s):
+    if len(s) == 0:
+        return False
+    for ch in s:
+        if not ('0' <= ch <= '9'):
+            return False
+    return True
+
+
+def model_int10(s, base=10):
+    """int(str) for the engine: ASCII digit strings by digit arithmetic; a string that holds
+    any character outside (decimal digits Nd, white space, + - _) is rejected, as CPython's
+    number grammar prescribes; everything else goes to the builtin (concrete)."""
+    if base != 10 or not isinstance(s, str):
+        return model_int(s, base) if base == 16 else _real_int(s, base)
+    if _ascii_digits(s):
+        v = 0
+        for ch in s:
+            v = v * 10 + (ord(ch) - 48)
+        return v
+    for ch in s:
+        if not (ch.isdecimal() or ch.isspace() or ch in SIGNS):
+            raise ValueError(f'invalid literal for int() with base 10')
+    return _real_int(s)
+
+
+class Int10Model:
+    def __enter__(self):
+        self.saved = gm.__dict__.get('int', Int10Model)
+        gm.int = model_int10
+
+    def __exit__(self, *a):
+        if self.saved is Int10Model:
+            del gm.int
+        else:
+            gm.int = self.saved
+        return False
+
+
+SMALL = ('0', '7', '+', '-', '_', ' ', '\u0663', '\uff15', '\u00b2')
+
+
+def make_size_field(tag, n, small):
+    t = FILE_TAGS[tag]
+
+    def run(s):
+        with Int10Model():
+            try:
+                e = MANIFEST_TAG_MAPPING[t].from_list(FieldList([t, 'a', s]))
+            except ManifestSyntaxError:
+                # a plain decimal number is a valid size
+                return not _ascii_digits(s), True
+        ok = e.size >= 0
+        if _ascii_digits(s):
+            v = 0
+            for ch in s:
+                v = v * 10 + (ord(ch) - 48)
+            ok = ok and e.size == v
+        return ok, False
+
+    def real(s):
+        """the same field through the unstubbed parser (builtin int)"""
+        try:
+            e = MANIFEST_TAG_MAPPING[t].from_list([t, 'a', s])
+        except ManifestSyntaxError:
+            bad = _ascii_digits(s)
+            return {'reproduced': bad, 'detail': 'plain decimal size rejected' if bad else
+                    'rejected with ManifestSyntaxError'}
+        except Exception as ex:
+            return {'reproduced': True, 'detail': f'{type(ex).__name__} escapes: {ex}'}
+        return {'reproduced': e.size < 0, 'detail': f'accepted, size={e.size}'}
+
+    if small:
+        def k_size_field(i1: int, i2: int, i3: int, n_: int):
+            idx = [sym.pick_index(i, len(SMALL)) for i in (i1, i2, i3)]
+            s = ''.join([SMALL[i] for i in idx][:n_])
+            return run(s)
+
+        def pre(i1: int, i2: int, i3: int, n_: int):
+            return 0 <= n_ <= 3
+        k_size_field.real = lambda a: real(''.join(
+            [SMALL[i if 0 <= i < len(SMALL) - 1 else len(SMALL) - 1]
+             for i in (a['i1'], a['i2'], a['i3'])][:a['n_']]))
+        return k_size_field, pre
+
+    def k_size_field(s: str):
+        return run(s)
+
+    def pre(s: str):
+        if len(s) != n:
+            return False
+        for ch in s:
+            # the complement (non-ASCII decimal digits, white space, signs, underscore) is
+            # covered over a concrete alphabet by size_field_*_small
+            if not ('0' <= ch <= '9') and (ch.isdecimal() or ch.isspace() or ch in SIGNS):
+                return False
+        return True
+    k_size_field.real = lambda a: real(a['s'])
+    return k_size_field, pre
+
+
+def size_field_conditions(tier):
+    cs = []
+    for tag in ((0, 4) if tier == 'quick' else range(len(FILE_TAGS))):
+        for n in (0, 1, 2):
+            fn, pre = make_size_field(tag, n, False)
+            cs.append(Cond(
+                replay_real=fn.real, name=f'size_field_{FILE_TAGS[tag]}_n{n}', body=fn,
+                pre=pre, timeout=600, group='size',
+                twin=(n > 0),
+                descr=f'{FILE_TAGS[tag]}.from_list with a free size field of {n} characters '
+                      'and Python\'s number grammar (ASCII digits by digit arithmetic, any '
+                      'character outside Nd/white space/+-_ makes int() raise ValueError): '
+                      'only ManifestSyntaxError may escape, plain decimal numbers are '
+                      'accepted with their value, nothing negative is accepted',
+                bounds=f'all strings of {n} characters over ASCII digits and every code point '
+                       'that is not a decimal digit, white space, sign or underscore (e.g. '
+                       'superscript and circled digits, letters)'))
+        fn, pre = make_size_field(tag, 3, True)
+        cs.append(Cond(
+            replay_real=fn.real, name=f'size_field_{FILE_TAGS[tag]}_small', body=fn, pre=pre,
+            timeout=600, group='size',
+            descr='the same with the builtin int() on strings over a concrete alphabet of the '
+                  'remaining character kinds',
+            bounds=f'all strings of length <= 3 over {SMALL!r}'))
+    return cs
+
+
 def conditions(tier):
     cs = []
     full = tier != 'quick'
@@ -296,6 +429,7 @@ def conditions(tier):
                       'negative or non-numeric size, empty/absolute (also escaped) path, DIST '
                       'with slash are rejected; an accepted entry is well-formed',
                 bounds='one free code point per field; field counts 0..6'))
+    cs += size_field_conditions(tier)
     for shape in range(len(PATH_SHAPES)):
         cs.append(Cond(f'ignore_s{shape}', specialise(k_ignore, shape=shape),
                        specialise(k_ignore_pre, shape=shape), timeout=600, group='entry',
@@ -339,11 +473,37 @@ def conditions(tier):
 
 
 ASSUMPTIONS = [
-    'which digit strings Python\'s int() accepts is Python\'s business (contract stub: any '
-    'int or ValueError); likewise strptime',
+    'file_entry_*: which digit strings Python\'s int() accepts is Python\'s business '
+    '(contract stub: any int or ValueError); likewise strptime',
+    'size_field_*: int() follows CPython\'s number grammar - a string holding any character '
+    'outside decimal digits (Nd), white space, "+", "-", "_" raises ValueError; ASCII digit '
+    'strings evaluate by digit arithmetic (model validated against the builtin on every run)',
     'fields contain no whitespace (they come from str.split())',
 ]
 OUTSIDE = ['whole texts beyond one or two lines (lines are independent except through the '
            'OpenPGP state machine of C04)', 'byte-level mutations of long Manifests']
 STUBS = ['gemato.manifest.int / datetime -> contract stubs', 'field lists passed as a list '
          'subclass that is not realised inside error messages']
+
+
+def validate(seed, tier):
+    """translator validation: the number-grammar model of int() against the builtin on all
+    strings of length <= 3 over an alphabet with every character kind the model tells apart"""
+    import itertools
+    alpha = ('0', '9', 'a', '\u00b2', '\u2460', '\u0663', '\uff15', ' ', '\u2003', '+', '-',
+             '_', '\x00', '\U0001d7d8', '.')
+    n, errs = 0, []
+
+    def outcome(fn, s):
+        try:
+            return fn(s)
+        except ValueError:
+            return 'ValueError'
+    for k in range(4):
+        for tup in itertools.product(alpha, repeat=k):
+            s = ''.join(tup)
+            if outcome(model_int10, s) != outcome(int, s):
+                raise RuntimeError(f'translator validation: model_int10({s!r}) differs from '
+                                   'the builtin')
+            n += 1
+    return n, [{'alphabet': [hex(ord(c)) for c in alpha], 'max_len': 3}], errs
